@@ -212,18 +212,28 @@ def potential(T, I, ctx, n):
     ctx.oracle_cases(name, n, worst_cowat=worst['cowat'], worst_supst=worst['supst'])
 
 
-def _tsat_defect(r):
-    """finding key when tsat (or a caller) raised one of the two recorded TypeErrors, else None"""
+def _tsat_defect(r, T=None, p=None):
+    """finding key when tsat (or a caller) raised one of the two recorded TypeErrors, else None.
+    The second one (an fsolve iterate leaves sat's range) is the recorded finding only for a
+    pressure within 1e-9 (relative) of sat(0.01); anywhere else it is a new failure."""
     if not (raised(r) and r[1] == 'TypeError'): return None
-    return KEY_TSAT2 if 'NoneType' in r[2] else KEY_TSAT
+    if 'NoneType' in r[2]:
+        if T is not None and p is not None and isnum(p):
+            plo = float(T.sat(0.01))
+            if abs(p - plo) <= 1e-9 * plo: return KEY_TSAT2
+        return 'tsat:raises-in-range'
+    return KEY_TSAT
 
 
 def tsat_inverse(T, I, ctx, n):
     name = 'tsat-inverts-sat'
     rng = ctx.rng
     worst = [0.0, 0.0]
-    ts = [0.01, T.Tc1_C, up(0.01), dn(T.Tc1_C), 100.0, 200.0, 300.0, 370.0] + [0.01 + (T.Tc1_C - 0.01) * k / (n - 1) for k in range(n)] + \
-         [rng.uniform(0.01, T.Tc1_C) for _ in range(n // 2)]
+    tc = T.Tc1_C
+    ts = [0.01, tc, up(0.01), dn(tc), 100.0, 200.0, 300.0, 370.0] + [0.01 + (tc - 0.01) * k / (n - 1) for k in range(n)] + \
+         [rng.uniform(0.01, tc) for _ in range(n // 2)] + \
+         [tc - 1.0 * k / 40 for k in range(41)] + [tc - 0.01 * k / 20 for k in range(21)] + [tc - 10.0 ** -k for k in range(3, 13)] + \
+         [0.01 + 1.0 * k / 20 for k in range(21)] + [0.01 + 10.0 ** -k for k in range(3, 15)]      # the last / first degree, densely
     ndef = 0
     for t in ts:
         for bounds in (False, True):
@@ -235,7 +245,7 @@ def tsat_inverse(T, I, ctx, n):
             r = call(T.tsat, p, bounds)
             if _tsat_defect(r):
                 ndef += 1
-                ctx.failure(name, _tsat_defect(r), {'fn': 'tsat_inverse', 't': t, 'bounds': bounds}, 'tsat(%r) raises %s: %s' % (p, r[1], r[2]), 'tsat(sat(t)) = t')
+                ctx.failure(name, _tsat_defect(r, T, p), {'fn': 'tsat_inverse', 't': t, 'bounds': bounds}, 'tsat(%r) raises %s: %s' % (p, r[1], r[2]), 'tsat(sat(t)) = t')
                 continue
             if not isnum(r):
                 key = 'tsat:upper-endpoint' if t >= dn(T.Tc1_C) else ('tsat:lower-endpoint' if t <= up(0.01) else 'tsat:no-value-in-range')
@@ -247,21 +257,24 @@ def tsat_inverse(T, I, ctx, n):
                 ctx.failure(name, 'tsat:not-inverse-of-sat', {'fn': 'tsat_inverse', 't': t, 'bounds': bounds},
                             'tsat(sat(t)) = %r, |difference| = %.3g K' % (fl(r), d), '<= %g K' % TOL_TSAT_K)
     plo, phi = float(T.sat(0.01)), T.Pc1
-    ps = [plo, phi, up(plo), dn(phi), 1e5, 1e6] + [math.exp(rng.uniform(math.log(plo), math.log(phi))) for _ in range(n)]
+    ps = [plo, phi, up(plo), dn(phi), 1e5, 1e6] + [math.exp(rng.uniform(math.log(plo), math.log(phi))) for _ in range(n)] + \
+         [phi * (1 - 10.0 ** -k) for k in range(2, 15)] + [phi * (1 - 0.01 * k / 30) for k in range(31)] + [plo * (1 + 10.0 ** -k) for k in range(2, 16)]
     for p in ps:
         for bounds in (False, True):
             ctx.count((name, 'p', p, bounds))
             r = call(T.tsat, p, bounds)
             if _tsat_defect(r):
                 ndef += 1
-                ctx.failure(name, _tsat_defect(r), {'fn': 'tsat_inverse', 'p': p, 'bounds': bounds}, 'tsat(%r) raises %s: %s' % (p, r[1], r[2]), 'sat(tsat(p)) = p')
+                ctx.failure(name, _tsat_defect(r, T, p), {'fn': 'tsat_inverse', 'p': p, 'bounds': bounds}, 'tsat(%r) raises %s: %s' % (p, r[1], r[2]), 'sat(tsat(p)) = p')
                 continue
             if not isnum(r):
                 ctx.failure(name, 'tsat:no-value-in-range', {'fn': 'tsat_inverse', 'p': p, 'bounds': bounds}, repr(r), 'a temperature')
                 continue
             # the solver's specification (hypothesis of sat_tsat_inverse): a root inside the saturation interval
-            q = call(T.sat, float(r))
-            inside = 0.01 - 1e-6 <= float(r) <= T.Tc1_C + 1e-6
+            # (a root finder answers to within its tolerance: a result up to TOL_TSAT_K outside the interval is
+            # read at the end point)
+            inside = 0.01 - TOL_TSAT_K <= float(r) <= T.Tc1_C + TOL_TSAT_K
+            q = call(T.sat, min(max(float(r), 0.01), T.Tc1_C))
             ctx.hyp_met['solve_root'] = ctx.hyp_met.get('solve_root', 0) + (1 if (isnum(q) and inside and abs(q - p) <= TOL_SAT_REL * p) else 0)
             if not (isnum(q) and abs(q - p) <= TOL_SAT_REL * p and inside):
                 ctx.failure(name, 'tsat:not-inverse-of-sat', {'fn': 'tsat_inverse', 'p': p, 'bounds': bounds},
@@ -291,20 +304,38 @@ def bounds(T, I, ctx, n):
     for x in tl: edges_t += [dn(x), x, up(x)]
     nin = {'cowat': [0, 0], 'supst': [0, 0], 'sat': [0, 0], 'tsat': [0, 0]}
 
+    def same(a, b):
+        if novalue(a) or novalue(b): return novalue(a) and novalue(b)
+        if raised(a) or raised(b): return raised(a) and raised(b)
+        if isinstance(a, tuple) != isinstance(b, tuple): return False
+        return tuple(a) == tuple(b) if isinstance(a, tuple) else a == b
+
+    nseq = [0]
     def check2(fn, t, p, expect):
+        """range checking on: value exactly inside the range; on == off inside; and the answer of a checked
+        call must not depend on earlier calls (unchecked call first, or in between, with the same arguments)"""
         ctx.count((name, fn, t, p))
         f = getattr(T, fn)
-        on, off = call(f, t, p, True), call(f, t, p, False)
+        nseq[0] += 1
+        if nseq[0] % 2:
+            off = call(f, t, p, False); on = call(f, t, p, True); seq = ['off', 'on']
+            on_again = on
+        else:
+            on = call(f, t, p, True); off = call(f, t, p, False); on_again = call(f, t, p, True); seq = ['on', 'off', 'on']
         nin[fn][0 if expect else 1] += 1
         if raised(on) and on[1] in ('ZeroDivisionError', 'OverflowError') and p == 0.0: return     # p = 0 is no steam state
-        if expect:
+        inp = {'fn': 'bounds', 'routine': fn, 't': t, 'p': p, 'sequence': seq}
+        if not same(on, on_again):
+            ctx.failure(name, '%s:range-check-depends-on-earlier-calls' % fn, inp, 'bounds=True -> %r, after an unchecked call with the same arguments -> %r' % (on, on_again), 'the same answer')
+        elif expect:
             if not ispair(on):
-                ctx.failure(name, '%s:no-value-in-range' % fn, {'fn': 'bounds', 'routine': fn, 't': t, 'p': p}, 'bounds=True -> %r' % (on,), 'inside the stated range: a density and an energy')
+                ctx.failure(name, '%s:no-value-in-range' % fn, inp, 'bounds=True -> %r' % (on,), 'inside the stated range: a density and an energy')
             elif not (ispair(off) and off[0] == on[0] and off[1] == on[1]):
-                ctx.failure(name, '%s:on-off-differ' % fn, {'fn': 'bounds', 'routine': fn, 't': t, 'p': p}, 'bounds=True -> %r, bounds=False -> %r' % (on, off), 'same values')
+                ctx.failure(name, '%s:on-off-differ' % fn, inp, 'bounds=True -> %r, bounds=False -> %r' % (on, off), 'same values')
         else:
             if not novalue(on):
-                ctx.failure(name, '%s:value-out-of-range' % fn, {'fn': 'bounds', 'routine': fn, 't': t, 'p': p}, 'bounds=True -> %r' % (on,), 'outside the stated range: no value')
+                key = '%s:range-check-depends-on-earlier-calls' % fn if seq[0] == 'off' else '%s:value-out-of-range' % fn
+                ctx.failure(name, key, inp, 'call sequence %s, bounds=True -> %r' % (seq, on), 'outside the stated range: no value')
 
     for k in range(n):
         # --- cowat
@@ -330,30 +361,46 @@ def bounds(T, I, ctx, n):
         check2('supst', t, p, _expect_supst(T, t, p))
     # --- sat
     ts = edges_t + [rng.uniform(-5.0, 510.0) for _ in range(n)]
-    for t in ts:
+    for k, t in enumerate(ts):
         ctx.count((name, 'sat', t))
-        on, off = call(T.sat, t, True), call(T.sat, t, False)
+        if k % 2:
+            off = call(T.sat, t, False); on = call(T.sat, t, True); seq = ['off', 'on']
+        else:
+            on = call(T.sat, t, True); off = call(T.sat, t, False); seq = ['on', 'off', 'on']
+            on2 = call(T.sat, t, True)
+            if not same(on, on2):
+                ctx.failure(name, 'sat:range-check-depends-on-earlier-calls', {'fn': 'bounds', 'routine': 'sat', 't': t, 'sequence': seq}, '%r then %r' % (on, on2), 'the same answer')
+                continue
         expect = 0.01 <= t <= T.Tc1_C
         nin['sat'][0 if expect else 1] += 1
+        inp = {'fn': 'bounds', 'routine': 'sat', 't': t, 'sequence': seq}
         if expect:
-            if not isnum(on): ctx.failure(name, 'sat:no-value-in-range', {'fn': 'bounds', 'routine': 'sat', 't': t}, 'bounds=True -> %r' % (on,), 'a pressure')
-            elif not (isnum(off) and off == on): ctx.failure(name, 'sat:on-off-differ', {'fn': 'bounds', 'routine': 'sat', 't': t}, '%r vs %r' % (on, off), 'same value')
+            if not isnum(on): ctx.failure(name, 'sat:no-value-in-range', inp, 'bounds=True -> %r' % (on,), 'a pressure')
+            elif not (isnum(off) and off == on): ctx.failure(name, 'sat:on-off-differ', inp, '%r vs %r' % (on, off), 'same value')
         elif on is not None:
-            ctx.failure(name, 'sat:value-out-of-range', {'fn': 'bounds', 'routine': 'sat', 't': t}, 'bounds=True -> %r' % (on,), 'None')
-    # --- tsat
+            ctx.failure(name, 'sat:range-check-depends-on-earlier-calls' if seq[0] == 'off' else 'sat:value-out-of-range', inp, 'call sequence %s, bounds=True -> %r' % (seq, on), 'None')
+    # --- tsat (an unchecked call above Pc1 works: the extrapolated sat() is defined up to 500 degC)
     plo, phi = float(T.sat(0.01)), T.Pc1
-    ps = [dn(plo), plo, up(plo), dn(phi), phi, up(phi), 1.0, 1e9] + [math.exp(rng.uniform(math.log(plo * 0.5), math.log(phi * 1.5))) for _ in range(max(8, n // 4))]
-    for p in ps:
+    ps = [dn(plo), plo, up(plo), dn(phi), phi, up(phi), 1.0, 1e9, phi * 1.00005, 2.3e7, 2.5e7, 3e7, plo * 0.999, 500.0] + \
+         [math.exp(rng.uniform(math.log(plo * 0.5), math.log(phi * 1.5))) for _ in range(max(8, n // 4))]
+    for k, p in enumerate(ps):
         ctx.count((name, 'tsat', p))
-        on = call(T.tsat, p, True)
+        if k % 2:
+            off = call(T.tsat, p, False); on = call(T.tsat, p, True); on2 = on; seq = ['off', 'on']
+        else:
+            on = call(T.tsat, p, True); off = call(T.tsat, p, False); on2 = call(T.tsat, p, True); seq = ['on', 'off', 'on']
         expect = plo <= p <= phi
         nin['tsat'][0 if expect else 1] += 1
+        inp = {'fn': 'bounds', 'routine': 'tsat', 'p': p, 'sequence': seq}
         if _tsat_defect(on):
-            ctx.failure(name, _tsat_defect(on), {'fn': 'bounds', 'routine': 'tsat', 'p': p}, 'tsat(%r, True) raises %s: %s' % (p, on[1], on[2]), 'a temperature')
+            ctx.failure(name, _tsat_defect(on, T, p), inp, 'tsat(%r, True) raises %s: %s' % (p, on[1], on[2]), 'a temperature')
+        elif not same(on, on2):
+            ctx.failure(name, 'tsat:range-check-depends-on-earlier-calls', inp, 'bounds=True -> %r, after an unchecked call with the same pressure -> %r' % (on, on2), 'the same answer')
         elif expect and not isnum(on):
-            ctx.failure(name, 'tsat:no-value-in-range', {'fn': 'bounds', 'routine': 'tsat', 'p': p}, 'bounds=True -> %r' % (on,), 'a temperature')
+            ctx.failure(name, 'tsat:no-value-in-range', inp, 'bounds=True -> %r' % (on,), 'a temperature')
         elif not expect and on is not None:
-            ctx.failure(name, 'tsat:value-out-of-range', {'fn': 'bounds', 'routine': 'tsat', 'p': p}, 'bounds=True -> %r' % (on,), 'None')
+            ctx.failure(name, 'tsat:range-check-depends-on-earlier-calls' if seq[0] == 'off' else 'tsat:value-out-of-range', inp,
+                        'call sequence %s with p = %r (unchecked call -> %r), bounds=True -> %r' % (seq, p, off, on), 'None')
     ctx.oracle_cases(name, 2 * n + len(ts) + len(ps), **{'%s_in/out' % k: '%d/%d' % tuple(v) for k, v in nin.items()})
 
 
@@ -471,19 +518,28 @@ def replay_one(T, I, key, inp):
             r = call(T.tsat, pp, b) if isnum(pp) else None
             return not (isnum(r) and abs(float(r) - t) <= TOL_TSAT_K)
         r = call(T.tsat, p, b)
-        q = call(T.sat, float(r)) if isnum(r) else None
-        return not (isnum(q) and abs(q - p) <= TOL_SAT_REL * p)
+        q = call(T.sat, min(max(float(r), 0.01), T.Tc1_C)) if isnum(r) else None
+        return not (isnum(q) and abs(q - p) <= TOL_SAT_REL * p and 0.01 - TOL_TSAT_K <= float(r) <= T.Tc1_C + TOL_TSAT_K)
     if fn == 'bounds':
         rt = inp['routine']
+        f = getattr(T, rt)
+        args = [p] if rt == 'tsat' else ([t] if rt == 'sat' else [t, p])
+        seq = inp.get('sequence') or ['on']
+        ons = []
+        off = None
+        for step in seq:                      # the recorded call sequence, in this fresh process
+            r = call(f, *(args + [step == 'on']))
+            if step == 'on': ons.append(r)
+            else: off = r
+        on = ons[-1]
+        if any(not ((novalue(a) and novalue(on)) or (raised(a) and raised(on)) or (not novalue(a) and not raised(a) and not novalue(on) and not raised(on) and tuple(a if isinstance(a, tuple) else (a,)) == tuple(on if isinstance(on, tuple) else (on,)))) for a in ons):
+            return True
         if rt in ('cowat', 'supst'):
-            on = call(getattr(T, rt), t, p, True)
             exp = (_expect_cowat(T, t, p) if 0.01 <= t <= 500.0 else False) if rt == 'cowat' else _expect_supst(T, t, p)
-            off = call(getattr(T, rt), t, p, False)
+            if off is None: off = call(f, t, p, False)
             return not ((ispair(on) and ispair(off) and on[0] == off[0] and on[1] == off[1]) if exp else novalue(on))
         if rt == 'sat':
-            on = call(T.sat, t, True)
             return not (isnum(on) if 0.01 <= t <= T.Tc1_C else on is None)
-        on = call(T.tsat, p, True)
         return not (isnum(on) if float(T.sat(0.01)) <= p <= T.Pc1 else on is None)
     if fn == 'regions':
         return call(T.region, t, p) != call(I.region, t, p)
